@@ -36,6 +36,39 @@ def main():
     known = load_known()
     expected_all = load_expected()
     for uname in units:
+        if uname.startswith('kani:'):
+            from vx import kani
+            kr = kani.run()
+            cov = ev['coverage']
+            cov['units'][uname] = dict(files=[dict(file='kani/src/lib.rs', status=kr['status'], verified=len(kr['harnesses']) - len(kr['failed']), wall_s=round(kr['wall'], 1),
+                                                   backend='kani 0.68 / cbmc 6.11 (bit-precise, full input domain, unwinding assertions on)', reason=kr['reason'][:500],
+                                                   errors=kr['failed'])], functions=kr['harnesses'])
+            cov['checker_cmd'] = kr['cmd']
+            cov['functions_under_contract'] += [f"{uname}:{h}" for h in kr['harnesses']]
+            if kr['status'] == 'undecided':
+                undecided.append(f"{uname}: {kr['reason'][:600]}")
+                continue
+            okh = [h for h in kr['harnesses'] if h not in kr['failed']]
+            cov['obligations'] += len(kr['harnesses'])
+            cov['discharged'] += len(okh)
+            cov['samples'] += [dict(obligation=h, status='discharged') for h in okh[:4]]
+            exp = expected_all.get(uname)
+            if a.record:
+                expected_all[uname] = sorted(okh)
+            elif exp is None:
+                undecided.append(f"{uname}: no recorded expectation")
+            else:
+                for h in kr['failed']:
+                    if h in exp:
+                        cx = kani.counterexample(kr, h)
+                        violations.append(dict(unit=uname.replace(':', '_'), obligation=h.replace('::', '_'), errors=[dict(msg='kani: assertion failed', line=0, file='kani/src/lib.rs', fn=h)],
+                                               ring=None, kani=cx))
+                    else:
+                        undecided.append(f"{uname}: harness {h} fails but was not verified on the pinned tree either")
+                missing = [h for h in exp if h not in kr['harnesses']]
+                if missing:
+                    undecided.append(f"{uname}: expected harnesses missing: {missing[:5]}")
+            continue
         try:
             seeds = [None] if a.tier == 'quick' else [None]
             res = driver.build_and_verify(uname, src, th, timeout=P.get('timeout', 900))
